@@ -29,8 +29,10 @@ MODEL = ("reference model: ~300 lines of exact polynomial arithmetic in global "
 HIGH_RULE = ("An extreme-order driver (drv_high) runs every kind of operation "
              "once per case for the orders 11, 12, 15, 16, 17, 20, 24, 31, 32, "
              "33, 40, 48, 64 (evaluation, Dx/X, + - * with an order-3 partner, "
-             "scalar, cross-order assignment, in-place chain, linear and "
-             "bilinear forms) against the exact model. ")
+             "scalar, cross-order assignment, in-place chain, operator "
+             "expressions with Dx<order-1>, Dx<order-2>, Dx<order/2> inside "
+             "(product, commutator with X, scaled sum, negated quotient), "
+             "linear and bilinear forms) against the exact model. ")
 
 
 def high_runs(tier, seed, scalars=("Q", "d"), flavour="plain"):
@@ -259,6 +261,7 @@ def c05_runs(tier, seed):
         runs += expr_runs(tier, seed, flavour="clang", scalars=("Q", "d"),
                           nrandom=40, cases_per_tu=12000)
     runs += [RunSpec("pool", "Q", "plain", q(tier, 160, 5000))]
+    runs += high_runs(tier, seed)
     return runs
 
 
@@ -271,11 +274,12 @@ reg(Spec(
          "for Q, C16 bound with the absolute interpretation of the expression "
          "for floating types. Every expression object is also kept alive "
          "together with its operand and applied again in a later case, after "
-         "the grids and splines of other cases have come and gone. "
-         "Non-trivial: the exact result is non-zero; "
+         "the grids and splines of other cases have come and gone. " +
+         HIGH_RULE + "Non-trivial: the exact result is non-zero; "
          "distinct by (expression, operand, factors, scalars).",
     required=["apply", "apply:order0", "apply:order3",
-              "apply:long-lived-operator",
+              "apply:long-lived-operator", "order:64",
+              "checked:expr-commutator-Dx<order-1>-X",
               "factor-window:ends-inside-operand",
               "factor-window:starts-inside-operand", "factor-window:empty",
               "factor-window:point-like"],
